@@ -31,7 +31,7 @@ func init() {
 			"ctx.File serves through a process-global FS instance; to keep episodes independent the same handler is exercised through ctx.FileFromFS with an identically configured per-episode FS",
 			"for syntactically invalid or multi-range Range headers any RFC-permitted answer is accepted (full 200, 206 of the first range, 416)",
 		},
-		RequiredProbes: []string{"range-closed", "range-open", "range-suffix", "range-unsatisfiable", "range-invalid", "range-multi", "range-overflow", "special-file-name", "empty-file", "big-file", "small-file", "head", "ims-304", "traversal", "index-file", "concurrent-same-file", "reader-stall", "client-rst", "cache-expired", "ctx-file-route", "dir-listing", "dir-listing-big", "compress-on", "gzip-response", "final-request", "hot-file", "file-modified-older", "file-modified-newer", "file-removed"},
+		RequiredProbes: []string{"range-closed", "range-open", "range-suffix", "range-unsatisfiable", "range-invalid", "range-multi", "range-overflow", "special-file-name", "empty-file", "big-file", "small-file", "head", "ims-304", "traversal", "index-file", "concurrent-same-file", "reader-stall", "client-rst", "cache-expired", "ctx-file-route", "dir-listing", "dir-listing-big", "compress-on", "gzip-response", "final-request", "hot-file", "file-modified-older", "file-modified-newer", "file-removed", "head-vs-get-coding"},
 	}
 }
 
@@ -632,6 +632,39 @@ func RunC08(ep *core.Episode) {
 		if !c.rst && !lenient && len(c.cl.Resps) != len(c.reqs) {
 			ep.Fail("C08.body", "connection %s: %d responses for %d requests (leftover %dB, serve err %v)", c.sc.Name, len(c.cl.Resps), len(c.reqs), len(c.cl.Leftover()), c.sc.Err)
 			return
+		}
+	}
+	// HEAD returns the headers of GET: with Compress, the same coding and the same length
+	if !lenient && !ep.Failed() {
+		type enc struct {
+			ce, cl string
+			conn   string
+		}
+		gets := map[string]enc{}
+		for pass := 0; pass < 2; pass++ {
+			for _, c := range conns {
+				for i, m := range c.cl.Resps {
+					if i >= len(c.reqs) {
+						break
+					}
+					r := c.reqs[i]
+					if r.file == "" || !r.gzip || r.rng != "" || r.ims != "" || r.travers || r.dirlist || m.Status != 200 || len(versions[r.file]) != 1 {
+						continue
+					}
+					ce, _ := m.Get("Content-Encoding")
+					cl, _ := m.Get("Content-Length")
+					if pass == 0 && r.method == "GET" {
+						gets[r.file+"|"+r.path[:2]] = enc{ce, cl, c.sc.Name}
+					}
+					if pass == 1 && r.method == "HEAD" {
+						if g, ok := gets[r.file+"|"+r.path[:2]]; ok && (g.ce != ce || g.cl != cl) {
+							ep.Fail("C08.head", "connection %s response %d: HEAD %s (Accept-Encoding: gzip) has Content-Encoding %q Content-Length %q, GET for the same file on %s had Content-Encoding %q Content-Length %q", c.sc.Name, i, r.path, ce, cl, g.conn, g.ce, g.cl)
+							return
+						}
+						ep.Probe("head-vs-get-coding")
+					}
+				}
+			}
 		}
 	}
 	ep.Nontrivial = nconn >= 2
